@@ -264,12 +264,22 @@ SS = 'self.scopes@'
 P = 'position.raw as int'
 FOUND = ('(r matches Some(d) ==> exists|id: LuaDeclId| self.decls@.contains_key(id) && d == &self.decls@[id] && dname(d) == name@ '
          '&& visible(self.scopes@, id, position.raw as int, true))')
+LATEST = ('(r matches Some(d) ==> exists|id: LuaDeclId| self.decls@.contains_key(id) && d == &self.decls@[id] && dname(d) == name@ '
+          '&& forall|id2: LuaDeclId| self.decls@.contains_key(id2) && #[trigger] visible(self.scopes@, id2, position.raw as int, true) '
+          '&& dname(&self.decls@[id2]) == name@ ==> pos_of(id2) <= pos_of(id))')
 FIND_ENSURES = """self.scopes@.len() == 0 ==> r is None,
             // Some(d): d is a declaration of the tree with that name that Lua's scoping makes visible at the position
             (tree_wf(self.scopes@) && !in_header(self.scopes@, position.raw as int)) ==> %(found)s /*@C13.lookup.returns-the-visible-declaration*/,
             // None: no declaration with that name is visible there (the caller falls back to the global)
             tree_wf(self.scopes@) ==> (r is None ==> forall|id: LuaDeclId| self.decls@.contains_key(id) && #[trigger] visible(self.scopes@, id, position.raw as int, true)
-                ==> dname(&self.decls@[id]) != name@) /*@C13.lookup.none-iff-no-visible-local*/""" % {'found': FOUND}
+                ==> dname(&self.decls@[id]) != name@) /*@C13.lookup.none-iff-no-visible-local*/,
+            // (i) shadowing: among the visible declarations with that name the one declared latest is returned
+            (tree_wf(self.scopes@) && no_dup_named(self, name@)) ==> %(latest)s /*@C13.lookup.latest-visible-declaration-wins*/,
+            // ---- the remaining cases of the two clauses above: FINDINGS on the current tree (see `findings`) ----
+            // (iv) a position in the header of a numeric / generic for (or in a closure inside it): loop variables are not visible there
+            (tree_wf(self.scopes@) && in_header(self.scopes@, position.raw as int)) ==> %(found)s /*@C13.lookup.loop-variable-not-visible-in-loop-header*/,
+            // (vi) `local a, a = 1, 2`: the later of two names of one statement wins
+            (tree_wf(self.scopes@) && !no_dup_named(self, name@)) ==> %(latest)s /*@C13.lookup.duplicate-names-later-wins*/""" % {'found': FOUND, 'latest': LATEST}
 FIND_PROOF = """proof {
             let ss = self.scopes@; let l = scope.id.id as int; let p = position.raw as int;
             let t = m_visit(ss, l, p, true);
@@ -285,7 +295,27 @@ FIND_PROOF = """proof {
                     let j = choose|j: int| 0 <= j < t.len() && find_hit(self, name@, t[j]) && r0.0.2 == Some(&self.decls@[t[j]->Decl_0])
                         && forall|j2: int| 0 <= j2 < j ==> !find_hit(self, name@, t[j2]);
                     assert(t.contains(t[j]));
-                    assert(visible(ss, t[j]->Decl_0, p, false));
+                    let id = t[j]->Decl_0;
+                    assert(visible(ss, id, p, false));
+                    lemma_entry_ord(ss, l, p);
+                    if no_dup_named(self, name@) {
+                        assert forall|id2: LuaDeclId| self.decls@.contains_key(id2) && #[trigger] visible(ss, id2, p, true) && dname(&self.decls@[id2]) == name@
+                            implies pos_of(id2) <= pos_of(id) by {
+                            assert(visible(ss, id2, p, false));
+                            assert(t.contains(ScopeOrDeclId::Decl(id2)));
+                            let b = choose|b: int| 0 <= b < t.len() && t[b] == ScopeOrDeclId::Decl(id2);
+                            assert(find_hit(self, name@, t[b]));
+                            lemma_first_is_latest(ss, t, j, b);
+                            if same_stmt(ss, t[j], t[b]) && id != id2 {
+                                let s = choose|s: int| 0 <= s < ss.len() && kd(ss, s) == LuaScopeKind::LocalOrAssignStat
+                                    && #[trigger] kids(ss, s).contains(t[j]) && kids(ss, s).contains(t[b]);
+                                let k1 = choose|k1: int| 0 <= k1 < kids(ss, s).len() && kids(ss, s)[k1] == t[j];
+                                let k2 = choose|k2: int| 0 <= k2 < kids(ss, s).len() && kids(ss, s)[k2] == t[b];
+                                assert(is_decl_child(ss, s, k1, id) && is_decl_child(ss, s, k2, id2));
+                                assert(false);
+                            }
+                        }
+                    }
                 } else {
                     // not stopped: a visible declaration with that name would be in the trace and would have stopped the visitor
                     assert forall|id: LuaDeclId| self.decls@.contains_key(id) && #[trigger] visible(ss, id, p, true) implies dname(&self.decls@[id]) != name@ by {
@@ -301,12 +331,19 @@ ENV_ENSURES = """self.scopes@.len() == 0 ==> r is None,
             self.scopes@.len() > 0 ==> r is Some,
             // exactly the declarations visible at the position (but the implicit `self`)
             (tree_wf(self.scopes@) && decls_wf(self) && !in_header(self.scopes@, position.raw as int)) ==> (r matches Some(v) && forall|id: LuaDeclId|
-                #[trigger] v@.contains(id) <==> (visible(self.scopes@, id, position.raw as int, true) && !dself(&self.decls@[id]))) /*@C13.env.exactly-visible*/"""
+                #[trigger] v@.contains(id) <==> (visible(self.scopes@, id, position.raw as int, true) && !dself(&self.decls@[id]))) /*@C13.env.exactly-visible*/,
+            // closest first: the list is the order-preserving filter (env_list: drop the implicit self) of a sequence in closest-first order
+            // (`ordered`: a later element has a smaller position, or occurred before, or is another name of the same statement)
+            tree_wf(self.scopes@) ==> (r matches Some(v) && exists|t: Seq<ScopeOrDeclId>| v@ == env_list(self, t) && ordered(self.scopes@, t)) /*@C13.env.closest-first*/,
+            // ---- the remaining case of C13.env.exactly-visible: FINDING on the current tree (same defect as C13.lookup.loop-variable-...) ----
+            (tree_wf(self.scopes@) && decls_wf(self) && in_header(self.scopes@, position.raw as int)) ==> (r matches Some(v) && forall|id: LuaDeclId|
+                #[trigger] v@.contains(id) <==> (visible(self.scopes@, id, position.raw as int, true) && !dself(&self.decls@[id]))) /*@C13.env.loop-variable-not-visible-in-loop-header*/"""
 ENV_PROOF = """proof {
             let ss = self.scopes@; let l = scope.id.id as int; let p = position.raw as int;
             let t = m_visit(ss, l, p, true);
             lemma_env_run(self, Seq::empty(), t);
             assert(Seq::<LuaDeclId>::empty() + env_list(self, t) =~= env_list(self, t));
+            if tree_wf(ss) { lemma_entry_ord(ss, l, p); assert(result@ == env_list(self, t) && ordered(ss, t)); }
             if tree_wf(ss) && decls_wf(self) {
                 lemma_trace_is_visible(ss, l, p);
                 assert forall|id: LuaDeclId| #[trigger] result@.contains(id) <==> (visible(ss, id, p, false) && !dself(&self.decls@[id])) by {
@@ -387,8 +424,8 @@ UNIT = {
             loops={0: CHILD_LOOP, 1: CHILD_LOOP},
             proof=[(r'false\s*\}\s*LuaScopeKind::LocalOrAssignStat', 'before', CHILD_DONE),
                    (r'false\s*\}\s*_ => false', 'before', CHILD_DONE),
-                   (r'(?s)if let ScopeOrDeclId::Decl\(decl_id\) = child(?=.*LuaScopeKind::LocalOrAssignStat =>)', 'before', CHILD_STEP),
-                   (r'(?s)if let ScopeOrDeclId::Decl\(decl_id\) = child(?!.*LuaScopeKind::LocalOrAssignStat =>)', 'before', CHILD_STEP)]),
+                   (r'(?s)if let ScopeOrDeclId::Decl\(decl_id\) = child(?=.*LuaScopeKind::LocalOrAssignStat)', 'before', CHILD_STEP),
+                   (r'(?s)if let ScopeOrDeclId::Decl\(decl_id\) = child(?!.*LuaScopeKind::LocalOrAssignStat)', 'before', CHILD_STEP)]),
         'LuaDeclarationTree::search_scope_children': fn(
             'search_scope_children', ret='r',
             rules=['c13-fnmut-visitor-bound', ('c13-fnmut-visitor-call', {'count': 1}), 'c13-rposition-loop', 'c13-rev-range'],
@@ -398,7 +435,7 @@ UNIT = {
             loops={0: RPOS_LOOP, 1: WALK_LOOP},
             proof=[(r'let Some\(cut\) = cut else \{', 'before', 'proof { if cut is None { lemma_cut_none(ss, ks, p, ks.len() as int); } }'),
                    (r'// Walk children in reverse source order', 'before', 'proof { lemma_cut_some(ss, ks, p, ks.len() as int, cut as int); }'),
-                   (r'match children\.get\(i\) \{', 'before', WALK_STEP),
+                   (r'match children\.get\(', 'before', WALK_STEP),
                    (r'false\s*\}\s*$', 'before', 'proof { lemma_run_empty::<F>(f.state()); }')]),
         'LuaDeclarationTree::visit_visible_decls': fn(
             'visit_visible_decls', rules=['c13-fnmut-visitor-bound'],
@@ -435,7 +472,7 @@ UNIT = {
             rules=[('c13-closure-visitor', {'ctor': 'FindVisitor { this: self, name, result }', 'writeback': 'result = __v.result',
                                             'body_from': r'match decl_id \{', 'body_to': r'\n {12}false'})],
             requires=WF + ', keys_ok()',
-            ensures=FIND_ENSURES,
+            ensures=FIND_ENSURES, attrs='#[verifier::spinoff_prover]',
             body_first='proof { if tree_wf(self.scopes@) { wf_basic(self.scopes@); } }',
             proof=[(r'result = __v\.result;', 'after', FIND_PROOF)]),
         'LuaDeclarationTree::get_env_decls': fn(
@@ -443,7 +480,7 @@ UNIT = {
             rules=[('c13-closure-visitor', {'ctor': 'EnvVisitor { this: self, result }', 'writeback': 'result = __v.result',
                                             'body_from': r'match decl_id \{', 'body_to': r'\n {12}false'})],
             requires=WF + ', keys_ok()',
-            ensures=ENV_ENSURES,
+            ensures=ENV_ENSURES, attrs='#[verifier::spinoff_prover]',
             body_first='proof { if tree_wf(self.scopes@) { wf_basic(self.scopes@); } }',
             proof=[(r'result = __v\.result;', 'after', ENV_PROOF)]),
     },
@@ -451,5 +488,30 @@ UNIT = {
     'min_obligations': 10,
     'trusted': [],
     'not_covered': [],
-    'mutants': [],
+    'mutants': [
+        {'name': 'search-position-le', 'item': 'LuaDeclarationTree::search_scope_children',
+         'pattern': r'decl_id\.position < position', 'repl': 'decl_id.position <= position', 'expect': r'search_scope_children:'},
+        {'name': 'no-statement-cutoff', 'item': 'LuaDeclarationTree::visit_visible_decls',
+         'pattern': r'self\.visit_visible_decls\(parent, cutoff, false, f\);', 'repl': 'self.visit_visible_decls(parent, position, false, f);',
+         'expect': r'visit_visible_decls.*C13\.visit\.model'},
+        {'name': 'no-statement-cutoff-from-closure', 'item': 'LuaDeclarationTree::visit_visible_decls',
+         'pattern': r'(let cutoff = scope\.get_position\(\);.*?let cutoff = )scope\.get_position\(\);', 'repl': r'\1position;',
+         'expect': r'visit_visible_decls.*C13\.visit\.model'},
+        {'name': 'walk-children-forward', 'item': 'LuaDeclarationTree::search_scope_children',
+         'pattern': r'match children\.get\(i\) \{', 'repl': 'match children.get(cut - i) {', 'expect': r'search_scope_children.*C13\.search\.model'},
+        {'name': 'expose-normal-child-block', 'item': 'LuaDeclarationTree::visit_child_scope',
+         'pattern': r'LuaScopeKind::LocalOrAssignStat => \{', 'repl': 'LuaScopeKind::LocalOrAssignStat | LuaScopeKind::Normal => {',
+         'expect': r'visit_child_scope:'},
+        {'name': 'for-range-entry-searches-itself', 'item': 'LuaDeclarationTree::visit_visible_decls',
+         'pattern': r'LuaScopeKind::ForRange => \{.*?false\s*\}\s*_ => true,', 'repl': '_ => true,', 'expect': r'visit_visible_decls.*C13\.visit\.model'},
+        {'name': 'repeat-until-does-not-see-body', 'item': 'LuaDeclarationTree::visit_visible_decls',
+         'pattern': r'self\.visit_visible_decls\(child, position, true, f\);\s*return;', 'repl': '',
+         'expect': r'visit_visible_decls.*C13\.visit\.model'},
+        {'name': 'find-scope-end-inclusive', 'item': 'LuaDeclarationTree::find_scope',
+         'pattern': r'\.contains\(position\)', 'repl': '.contains_inclusive(position)', 'expect': r'find_scope:'},
+        {'name': 'find-visitor-any-name', 'item': 'LuaDeclarationTree::find_local_decl::visitor',
+         'pattern': r'if decl\.get_name\(\) == name \{', 'repl': 'if decl.get_name() != name {', 'expect': r'C13\.lookup\.visitor-stops-at-the-name'},
+        {'name': 'env-visitor-stops', 'item': 'LuaDeclarationTree::get_env_decls::visitor',
+         'pattern': r'\n {12}false', 'repl': '\n            true', 'expect': r'C13\.env\.visitor-never-stops'},
+    ],
 }
